@@ -284,4 +284,15 @@ pub fn gen(rng: &mut Rng, tier: Tier, out: &mut Vec<String>) {
         out.push(toks.join(" "));
     } } }
     out.push(format!("tri q 0 0 0 0 0 1 0 0"));
+
+    // LARGER ORDERS (11 .. 65)
+    for _ in 0..(if tier == Tier::Quick { 8 } else { 160 }) {
+        let n = big(rng, 65);
+        for class in 0..6 {
+            out.push(one::<f64>(rng, n, class, false));
+            if n <= 33 { out.push(one::<Q>(rng, n, class, false)); }
+            if class < 5 && n <= 40 { out.push(one::<Cmplx>(rng, n, class, false)); }
+        }
+        let cl = rng.below(5); out.push(one_k::<f64>(rng, n, cl, false, 2));
+    }
 }
